@@ -163,5 +163,18 @@ CLAIMS = {
         "technique": "Coq model + correspondence + spec-selected inputs; theorems partial",
         "design_ref": "DESIGN.md §4 C09",
     },
+    "C13": {
+        "text": "The model of BBAN.random / IBAN.random takes what the caller's generator and rstr produced (country index, bank "
+                "index, the xeger draw of each attempt) as an explicit argument and follows the overlay / truncation / retry "
+                "loop; it is fed the very choices the implementation saw (Random subclass and Rstr.xeger wrapped from outside) "
+                "and must return the same object for every country, registry mode, seed and pin subset. The property is checked on "
+                "the implementation by a table-driven oracle (validity/conformity, country, pins unchanged, listed bank, second "
+                "equally seeded call identical) and by a subprocess sweep over PYTHONHASHSEED. Theorems: see evidence "
+                "obligation_names (partial). Fixed: pinned branch overridden (b2d8752), out-of-class pins on other components "
+                "(9a4a92a). Open findings: pinned computed digits replaced, over-long pin truncated, pin ignored without positions.",
+        "note": COMMON_NOTE + " rstr and random.Random are oracles (their outputs are inputs of the model); the C13 oracle is Python written against Gen/facts.json.",
+        "technique": "Coq model with explicit randomness oracle + instrumented correspondence + table-driven property oracle + hash-seed subprocess sweep; theorems partial",
+        "design_ref": "DESIGN.md §4 C13",
+    },
 }
 NOT_APPLICABLE = {}
